@@ -25,21 +25,25 @@ type SelApp struct {
 
 // recQuerier is the api.Querier handed to api.Select: it forwards to the runner, which records and checks the page
 type recQuerier struct {
-	r     *runner
-	spec  *SelectSpec
-	cur   *api.QueryRequest
-	calls int
-	err   error
-	stop  context.CancelFunc
-	want  int
-	got   int
+	r      *runner
+	spec   *SelectSpec
+	cur    *api.QueryRequest
+	calls  int
+	err    error
+	stop   context.CancelFunc
+	want   int
+	got    int
+	capped bool
 }
 
 func (q *recQuerier) Query(ctx context.Context, req *api.QueryRequest, res *api.QueryResult) error {
 	q.calls++
-	if q.calls > 400 {
-		q.err = fmt.Errorf("api.Select issued more than 400 queries")
-		return q.err
+	if q.calls > 60+q.want {
+		// the loop does not come to an end (in stream mode: the expected events never all arrived)
+		q.r.fail("select-no-termination", fmt.Sprintf("api.Select(limit=%d, stream=%v) issued %d queries and delivered %d of the %d expected events", q.spec.Limit, q.spec.Stream, q.calls, q.got, q.want))
+		q.capped = true
+		q.stop()
+		return context.Canceled
 	}
 	st := Step{Kind: "same", Limit: int64(req.Limit), Wait: req.WaitTimeout > 0, Rpc: true}
 	for _, a := range q.spec.Apps {
@@ -78,6 +82,10 @@ func (q *recQuerier) Query(ctx context.Context, req *api.QueryRequest, res *api.
 		q.err = err
 		return err
 	}
+	if r.aborted {
+		q.stop()
+		return context.Canceled
+	}
 	q.spec.steps = append(q.spec.steps, st)
 	*res = *out
 	nx := out.NextQueryRequest
@@ -101,7 +109,7 @@ func lastApp(s *SelectSpec) int {
 
 // runSelect drives api.Select and evaluates what its handler received
 func (r *runner) runSelect(spec *SelectSpec) error {
-	ctx, cancel := context.WithTimeout(context.Background(), 60*time.Second)
+	ctx, cancel := context.WithTimeout(context.Background(), 45*time.Second)
 	defer cancel()
 	wt := 0
 	if spec.Wait {
@@ -128,11 +136,15 @@ func (r *runner) runSelect(spec *SelectSpec) error {
 	if q.err != nil {
 		return q.err
 	}
+	if q.capped || r.aborted {
+		return nil
+	}
 	if err != nil {
-		return fmt.Errorf("api.Select: %v", err)
+		r.fail("select-error", fmt.Sprintf("api.Select: %v", err))
+		return nil
 	}
 	if ctx.Err() == context.DeadlineExceeded {
-		r.fail("select-no-termination", fmt.Sprintf("api.Select still running after 60s, %d queries, %d events", q.calls, q.got))
+		r.fail("select-no-termination", fmt.Sprintf("api.Select still running after 45s, %d queries, %d events", q.calls, q.got))
 	}
 	if emptyHandled {
 		r.fail("select-empty-handled", "handler called with an empty result")
